@@ -47,7 +47,11 @@ Inductive cres :=
 | XReject.                                  (* an error for a chain index whose height contradicts its block:
                                                the property asks only for "error, never panic" there *)
 
-Record obs := Obs { o_res : cres; o_v1 : list N; o_v2 : oform }.
+(** [o_skip]: the harness did not read the pool after this call (the next call on the manager came
+    first): the model makes no query either and nothing but the call's own result is compared *)
+Record obs := Obs' { o_res : cres; o_v1 : list N; o_v2 : oform; o_skip : bool }.
+Definition Obs (r : cres) (v1 : list N) (v2 : oform) : obs := Obs' r v1 v2 false.
+Definition ObsNone (r : cres) : obs := Obs' r [] [] true.
 Record case := mk_case {
   c_mw : N; c_univ : list (N * blk); c_gen : index; c_L0 : ledger; c_tip0 : index;
   c_trace : list (cop * obs)
@@ -122,7 +126,8 @@ Fixpoint check_trace (mw : N) (gen : index) (s : rstate) (t : list (cop * obs)) 
   | [] => true
   | (o, ob) :: t' =>
       let '(s1, r) := cstep mw gen s o in
-      (* the harness reads both pool lists after every call *)
+      if o_skip ob then res_eqb r (o_res ob) && check_trace mw gen s1 t' else
+      (* the harness reads both pool lists after the call *)
       let p := revalidate (r_L s1) mw (r_p s1) in
       res_eqb r (o_res ob) && bool_decide (map a_id (txns p) = o_v1 ob) &&
       bool_decide (form (v2txns p) = o_v2 ob) &&
@@ -147,6 +152,9 @@ Fixpoint first_bad (mw : N) (gen : index) (s : rstate) (t : list (cop * obs)) (i
   | [] => None
   | (o, ob) :: t' =>
       let '(s1, r) := cstep mw gen s o in
+      if o_skip ob then
+        (if res_eqb r (o_res ob) then first_bad mw gen s1 t' (N.succ i) else Some (i, r, [], []))
+      else
       let p := revalidate (r_L s1) mw (r_p s1) in
       if res_eqb r (o_res ob) && bool_decide (map a_id (txns p) = o_v1 ob) && bool_decide (form (v2txns p) = o_v2 ob)
       then first_bad mw gen (RS (r_U s1) (r_L s1) (r_tip s1) p) t' (N.succ i)
